@@ -26,9 +26,13 @@ def main():
             open(p, "w").write(s.replace(t["old"], t["new"]))
             env = dict(os.environ, VERIF_REPO=repo)
             r = subprocess.run([sys.executable, os.path.join(HERE, "vf", "main.py"), "unit", uid] + (["--only", t["only"]] if "only" in t else []), capture_output=True, text=True, env=env)
-            ok = r.returncode == 1 and t["expect"] in r.stdout
+            failed_lines = "\n".join(l for l in r.stdout.splitlines() if l.startswith("FAILED "))
+            ok = r.returncode == 1 and t["expect"] in failed_lines
             print("TEETH %s #%d %-70s %s" % (uid, k, t["what"][:70], "caught" if ok else "NOT CAUGHT (rc=%d)" % r.returncode))
-            if not ok: bad += 1
+            if not ok:
+                bad += 1
+                print("   expect=%r; FAILED lines were:" % t["expect"])
+                for l in failed_lines.splitlines()[:12]: print("     " + l[:260])
             shutil.rmtree(tmp)
     print("teeth: %d mutations, %d not caught" % (total, bad))
     sys.exit(1 if bad else 0)
